@@ -3,6 +3,7 @@
 for a in "$@"; do
   pid=$(echo $a | cut -d: -f1); wt=$(echo $a | cut -d: -f2); chk=$(echo $a | cut -d: -f3); [ -z "$chk" ] && chk=$pid
   out=/var/tmp/seedrun_${pid}_${chk}.log
-  VERIF_REPO=$wt VERIF_SCRATCH=/var/tmp/verif-scratch-seed timeout 3000 /venv/bin/python /verif/harness/check.py $chk --tier quick > $out 2>&1
+  d=/var/tmp/seedrun_$pid; mkdir -p $d/ev
+  VERIF_REPO=$wt VERIF_SCRATCH=$d/scratch VERIF_EVIDENCE_DIR=$d/ev VERIF_REPLAY_DIR=$d/replay timeout 3000 /venv/bin/python /verif/harness/check.py $chk --tier quick > $out 2>&1
   echo "$pid via $chk: rc=$? violations=$(grep -c '^VIOLATION' $out) known=$(grep -c '^KNOWN' $out)"
 done
